@@ -3,7 +3,7 @@
    spike times padded with NaN (structural theorem: any number type, axiom-free), and over the reals the
    intervals re-integrate to the spike times. *)
 From Coq Require Import List ZArith Bool Arith Lia Reals Lra.
-From Inferno Require Import Base.Num Base.NumR C20.Model C20.Spec.
+From Inferno Require Import Base.Num Base.NumR Gen.SpikeMath C20.Model C20.Spec.
 Import ListNotations.
 Close Scope R_scope.
 
@@ -133,12 +133,18 @@ Proof.
 Qed.
 End Rows.
 
+(* the GENERATED spike-time expression (Gen/SpikeMath.v, the `(nz - 1) * step_time` handed to tensor_split): the nonzero
+   index i + 1 of the left-padded raster is the time of step i *)
+Theorem isi_spike_time_unshifts : forall (N : Num) (i : nat) (dt : T N),
+  isi_spike_time N (Z.of_nat (S i)) dt = mul N (ofZ N (Z.of_nat i)) dt.
+Proof. intros. unfold isi_spike_time. do 2 f_equal. lia. Qed.
+
 (* ------------------------------------------------------------------ the structural theorem *)
 Theorem isi_last_spec : forall (N : Num) (dt : T N) (trains : list (list bool)), trains <> [] ->
   isi_last N dt trains = map (isi_spec_row N dt (maxcount trains)) trains.
 Proof.
   intros N dt trains Hne. unfold isi_last.
-  set (f := fun p : nat => mul N (ofZ N (Z.of_nat p - 1)) dt).
+  set (f := fun p : nat => isi_spike_time N (Z.of_nat p) dt).
   assert (Hnz : flat_map (nonzero_from 0) (map (cons true) trains) = concat (map piece (map spike_indices trains))).
   { clear. induction trains as [|tr trains IH]; [reflexivity|].
     cbn [map flat_map concat]. rewrite IH. f_equal.
@@ -162,7 +168,7 @@ Proof.
   replace (S C - S (length (spike_indices tr))) with (C - count tr) by (unfold count; lia).
   rewrite map_map.
   assert (Hf : map (fun x => f (S x)) (spike_indices tr) = spike_times N dt tr).
-  { unfold spike_times. apply map_ext. intros i. unfold f. do 2 f_equal. lia. }
+  { unfold spike_times. apply map_ext. intros i. unfold f, isi_spike_time. do 2 f_equal. lia. }
   rewrite map_map. rewrite <- (map_map (fun x => f (S x)) Some). rewrite Hf. rewrite odiff_somes_nones. unfold isi_spec_row. f_equal.
   assert (Hle : count tr <= C).
   { unfold C. clear -Hin. induction trs as [|t trs IH]; [destruct Hin|].
